@@ -27,7 +27,7 @@ V = c07.V
 
 
 def run(ctx):
-    for fn in (r1_static_rows, r2_dynamic_rows, r3_ownership_predicate):
+    for fn in (r1_static_rows, r2_dynamic_rows, r3_ownership_predicate, r4_no_name_filter, r5_static_descends_compound):
         ctx.rep.rule(fn, ctx)
 
 
@@ -179,14 +179,79 @@ def r3_ownership_predicate(ctx):
                '(a def of this module wrapped by a functools.wraps decorator from another module is judged foreign)', anchor=q)
     rep.floor('C16.R3', 'sufficient ownership tests', n_true, 2)
     # the __module__ test is consulted for every non-module item
-    tests = [n for n in g.nodes if n.kind == 'test' and not n.dup and module_branch(n) is False and "'__module__'" in ast.unparse(n.ast) and 'target_modname' in ast.unparse(n.ast)
-             and not any(isinstance(x, ast.Name) and x.id == 'parent' for x in ast.walk(n.ast))]
-    need(tests, 'C16.R3: the `__module__ == target` test was not found')
+    item = f.node.args.args[0].arg
+
+    def is_module_attr_read(e):
+        if isinstance(e, ast.Attribute) and e.attr == '__module__' and is_name(e.value, item):
+            return True
+        return isinstance(e, ast.Call) and is_name(e.func, 'getattr') and len(e.args) >= 2 and is_name(e.args[0], item) and isinstance(e.args[1], ast.Constant) and e.args[1].value == '__module__'
+
+    def is_target(e):
+        return is_name(e, 'target_modname') or (isinstance(e, ast.Attribute) and e.attr == '__name__' and is_name(e.value, f.node.args.args[1].arg))
+
+    def only_module_attr(node, e):
+        if is_module_attr_read(e):
+            return True
+        if isinstance(e, ast.Name):
+            ds = rd.at(node, e.id)
+            return bool(ds) and all(d.kind == 'assign' and isinstance(d.value, ast.AST) and is_module_attr_read(d.value) for d in ds)
+        return False
+    cmp_tests = []
+    for n in g.nodes:
+        if n.kind == 'test' and not n.dup and module_branch(n) is False and isinstance(n.ast, ast.Compare) and len(n.ast.ops) == 1 and isinstance(n.ast.ops[0], ast.Eq):
+            l, r = n.ast.left, n.ast.comparators[0]
+            if is_target(r) or is_target(l):
+                cmp_tests.append((n, l if is_target(r) else r))
+    need(cmp_tests, 'C16.R3: no comparison with the target module name on the non-module branch')
+    tests = [n for (n, other) in cmp_tests if only_module_attr(n, other)]
+    if not tests:
+        n0 = cmp_tests[0][0]
+        rep.ob('C16.R3', ctx.loc(f, n0.ast), 'item.__module__ == target decides', False,
+               'no test compares exactly the `__module__` attribute of the item with the target module (candidates: %s): a def of this module that is wrapped by a functools.wraps '
+               'decorator defined elsewhere keeps `__module__` but has foreign `__globals__`, so the dynamic collector drops what the static collector records' %
+               [ctx.src(t.ast) for (t, _) in cmp_tests], anchor=q)
     for t in tests:
         others = [fa for fa in graph.guard_facts(dom, t) if not (isinstance(fa.expr, ast.Call) and is_name(fa.expr.func, 'isinstance'))]
-        ok = not others
+        tb = [b for b in t.nsucc() if b.kind == 'branch' and b.attrs['polarity'] is True]
+        sets_true = any(x.kind == 'stmt' and isinstance(x.ast, ast.Assign) and is_name(x.ast.targets[0], flag) and isinstance(x.ast.value, ast.Constant) and x.ast.value.value is True
+                        for b in tb for x in b.nsucc())
+        ok = not others and sets_true
         rep.ob('C16.R3', ctx.loc(f, t.ast), ctx.src(t.ast), ok,
-               'consulted for every non-module item' if ok else 'the `__module__` test is only consulted under %s' % fmt_facts(others), anchor=q)
+               'consulted for every non-module item and sufficient' if ok else ('the `__module__` test is only consulted under %s' % fmt_facts(others) if others else 'a positive `__module__` test does not set the verdict'), anchor=q)
+
+
+# ---------------------------------------------------------------------------
+def r4_no_name_filter(ctx):
+    """the static visitor records a definition whatever it is called; the dynamic walk must not filter by name either
+    (no branch of iter_module_doctestables may depend on the dictionary key)"""
+    rep = ctx.rep
+    f = ctx.func(DYN)
+    g = ctx.cfg(f)
+    keys = set()
+    for n in g.nodes:
+        if n.kind == 'for' and not n.dup and isinstance(n.ast.target, ast.Tuple) and n.ast.target.elts and isinstance(n.ast.target.elts[0], ast.Name):
+            it = n.ast.iter
+            if isinstance(it, ast.Call) and isinstance(it.func, ast.Attribute) and it.func.attr == 'items':
+                keys.add(n.ast.target.elts[0].id)
+    need(keys, 'C16.R4: loops over <namespace>.items() not found')
+    tests = [n for n in g.nodes if n.kind == 'test' and not n.dup]
+    bad = [t for t in tests if any(isinstance(x, ast.Name) and x.id in keys for x in ast.walk(t.ast))]
+    rep.ob('C16.R4', ctx.loc(f, bad[0].ast if bad else f.node), 'no branch on the member name' + (': ' + ctx.src(bad[0].ast) if bad else ''), not bad,
+           '%d tests, none reads the dictionary key' % len(tests) if not bad else
+           'the dynamic collector filters members by name (`%s`); the static collector has no such filter, so the two disagree for definitions with such names' % ctx.src(bad[0].ast), anchor=DYN)
+    # comprehension / filter forms on the iterated namespace
+    for n in g.nodes:
+        if n.kind == 'for' and not n.dup and isinstance(n.ast.target, ast.Tuple):
+            it = n.ast.iter
+            ok = isinstance(it, ast.Call) and isinstance(it.func, ast.Attribute) and it.func.attr == 'items' and not it.args and \
+                isinstance(it.func.value, ast.Attribute) and it.func.value.attr == '__dict__'
+            rep.ob('C16.R4', ctx.loc(f, n.ast), 'iterates %s' % ctx.src(it), ok, 'the whole namespace dictionary' if ok else 'the namespace is pre-filtered before the walk', nontrivial=False, anchor=DYN)
+
+
+def r5_static_descends_compound(ctx):
+    """definitions under try / with / loops exist after import: the static visitor must visit them too (same clause as C07.R8)"""
+    from . import c07
+    c07.r8_compound_statements_descend(ctx, rule='C16.R5')
 
 
 # ---------------------------------------------------------------------------
@@ -195,6 +260,9 @@ from ..selftest import fire, silent      # noqa: E402
 SA = 'xdoctest/static_analysis.py'
 DY = 'xdoctest/dynamic_analysis.py'
 VARIANTS = [
+    fire('dynamic-skips-dunder-names', 'C16.R4', (DY, "    for key, val in module.__dict__.items():\n        if isinstance(val, valid_func_types):\n", "    for key, val in module.__dict__.items():\n        if key.startswith('__'):\n            continue\n        if isinstance(val, valid_func_types):\n")),
+    fire('static-skips-except-handlers', 'C16.R5', (SA, "    # -- helpers ---\n", "    def visit_Try(self, node):\n        for child in node.body + node.orelse + node.finalbody:\n            self.visit(child)\n\n    # -- helpers ---\n")),
+    fire('module-attr-only-as-fallback', 'C16.R3', (DY, "        if getattr(item, '__module__', None) == target_modname:\n            flag = True\n", "        try:\n            item_modname = item.__globals__['__name__']\n        except AttributeError:\n            item_modname = getattr(item, '__module__', None)\n        if item_modname == target_modname:\n            flag = True\n")),
     fire('revert-fix-F3-no-async-handler', 'C16.R1',
          (SA, "    # Coroutine functions are documented callables like any other function\n    visit_AsyncFunctionDef = visit_FunctionDef\n", "")),
     fire('dynamic-drops-staticmethod', 'C16.R2', (DY, "        classmethod,\n        staticmethod,\n", "        classmethod,\n")),
